@@ -34,6 +34,7 @@ GLOBS = {
     'prior-run-params': {'params': {'rate': 1.0}, 'ext': 'raise', 'prior': True}, 'prior-run': {'ext': 'raise', 'prior': True},
     'ext-nonstr': {'ext': 'nonstr'},
     'in-except': {'call_context': 'except'}, 'in-finally': {'call_context': 'finally', 'ext': 'dict'},
+    'debug-log': {'debug_log': True}, 'debug-log-ext': {'debug_log': True, 'ext': 'dict', 'save_raises': True},
     'sub': {'sub': True, 'ext': 'dict'}, 'sub-params': {'sub': True, 'params': {'rate': 0.0}}, 'sub-cls': {'sub': True, 'kind': 'cls', 'params': {'skipped': True}},
 }
 CLEAN2 = {'steps': [{'fn': 'in_a', 'a': ['x1'], 'ret': 'vlst'}, {'fn': 'out_a', 'a': ['x1'], 'ret': 'v1'}, {'fn': 'out_a', 'a': ['x2'], 'ret': 'v0'}]}
@@ -150,9 +151,40 @@ class Bundle(object):
     pass
 
 
+class debug_logging(object):
+    """The service runs with the library's loggers at DEBUG (records go to a handler that drops them): every log call is really formatted."""
+
+    def __init__(self, on):
+        self.on = on
+
+    def __enter__(self):
+        if self.on:
+            import logging
+            self.lg = logging.getLogger('playback')
+            self.saved = (self.lg.level, self.lg.propagate, list(self.lg.handlers), logging.root.manager.disable)
+            self.lg.handlers[:] = [logging.NullHandler()]
+            self.lg.propagate = False
+            self.lg.setLevel(logging.DEBUG)
+            logging.disable(logging.NOTSET)
+
+    def __exit__(self, *a):
+        if self.on:
+            import logging
+            self.lg.setLevel(self.saved[0])
+            self.lg.propagate = self.saved[1]
+            self.lg.handlers[:] = self.saved[2]
+            logging.disable(self.saved[3])
+        return False
+
+
 def execute(case, second=True, cas='mem'):
-    from mc import cassettes
     prog, g = build(case)
+    with debug_logging(g.get('debug_log')):
+        return _execute(case, prog, g, second, cas)
+
+
+def _execute(case, prog, g, second, cas):
+    from mc import cassettes
     b = Bundle()
     b.prog, b.g = prog, g
     b.box = cassettes.Box(cas)
